@@ -145,3 +145,128 @@ def rewrite(text, ren, prog):
             text = re.sub(r'(?<![\w:])' + o + r'(?![\w])(?=\(|::|<)', new, text)
             text = re.sub(r'(\b' + m + r'::)' + o + r'(?![\w])', r'\g<1>' + new, text)
     return text
+
+
+def _fn_in(prog, sc, name):
+    for fs in prog.fns.values():
+        for g in fs:
+            if g.blocks and g.name.rsplit('::', 1)[-1] == name and scope_of(prog, g) == sc:
+                return g
+    return None
+
+
+def locate(prog, crate, name, scope_hint=None):
+    """the function that plays the role the pinned `name` played: that very name in its pinned scope, else - the helper was moved to another
+    module / turned into an associated function and renamed on the way - the only new function of the crate with the pinned signature.
+    None when there is no such function."""
+    pinned = load_table().get(crate) or {}
+    homes = [(sc, names[name]) for sc, names in pinned.items() if name in names and (scope_hint is None or scope_hint in sc)]
+    if len(homes) != 1:
+        return None
+    sc, fp = homes[0]
+    f = _fn_in(prog, sc, name)
+    if f is not None:
+        return f
+    cands, loose = [], []
+    for fs in prog.fns.values():
+        for g in fs:
+            if not g.blocks:
+                continue
+            gsc = scope_of(prog, g)
+            if gsc is None:
+                continue
+            last = g.name.rsplit('::', 1)[-1]
+            if last in (pinned.get(gsc) or {}) and not (last == name and gsc != sc):
+                continue                # a function that existed at the pinned commit keeps its own role
+            gfp = fingerprint(prog, g)
+            if gfp == fp:
+                cands.append(g)
+            elif _loose(gfp) == _loose(fp):
+                loose.append(g)
+    uniq = {g.raw: g for g in cands}
+    if not uniq:
+        # same parameters, same outer shape of the result (Result<_, E> / Option<_> / async): the payload got a named type
+        uniq = {g.raw: g for g in loose}
+    return next(iter(uniq.values())) if len(uniq) == 1 else None
+
+
+def _loose(fp):
+    args, _, ret = fp.rpartition(')->')
+    m = re.match(r'((?:async->)?(?:Poll<)?(?:Result|Option)?)<?', ret)
+    tail = re.search(r',(\w+)>+$', ret)
+    return args + ')->' + (m.group(1) if m else '') + ('/' + tail.group(1) if tail and 'Result' in ret else '')
+
+
+def call_re(prog, f):
+    """regex matching the callee text of calls to `f`"""
+    last = re.escape(f.name.rsplit('::', 1)[-1])
+    if f.impl_span is not None:
+        tr, st = prog.impl_header(f.impl_span)
+        head = M.type_head(st) if st else None
+        if head:
+            return r'(^|::)' + re.escape(head) + r'(::<.*>)?::' + last + '$'
+    return r'(^|::)' + last + '$'
+
+
+# ----------------------------------------------------------------------------- renamed crate-private struct types
+_type_ren = {}
+
+
+def type_renames(repo):
+    """{current name: pinned name} of structs that were renamed (and possibly moved): a struct recorded in lib/roles.json no longer
+    exists under its pinned name anywhere in its crate, and exactly one struct of the crate that has no pinned name declares the
+    same field types (as a multiset, the struct's own name abstracted).  The analysis then reads that struct under its pinned name."""
+    if repo in _type_ren:
+        return _type_ren[repo]
+    import glob
+    import e2
+    out = {}
+    try:
+        pinned = json.load(open(e2.ROLES_FILE))
+    except OSError:
+        pinned = {}
+    by_crate = {}
+    for k, fields in pinned.items():
+        rel, name = k.split('::', 1)
+        m = re.match(r'(crates/[^/]+)/', rel)
+        if m:
+            by_crate.setdefault(m.group(1), {})[name] = fields
+    for crate, structs in by_crate.items():
+        srcs = {}
+        for f in glob.glob(os.path.join(repo, crate, 'src', '**', '*.rs'), recursive=True):
+            try:
+                srcs[f] = re.sub(r'//[^\n]*', '', open(f, errors='replace').read())
+            except OSError:
+                pass
+        have = {}
+        for f, src in srcs.items():
+            for n in re.findall(r'\bstruct\s+(\w+)', src):
+                have.setdefault(n, f)
+        missing = [n for n in structs if n not in have]
+        extra = [n for n in have if n not in structs]
+        if not missing or not extra:
+            continue
+
+        def sig(name, types):
+            return sorted(re.sub(r'\b' + re.escape(name) + r'\b', '@', t) for t in types)
+        cur = {}
+        for n in extra:
+            pairs = e2._parse_struct(srcs[have[n]], n)
+            if pairs:
+                cur[n] = sig(n, [t for _, t in pairs])
+        for n in missing:
+            want = sig(n, list(structs[n].values()))
+            if not want:
+                continue
+            cands = [c for c, sg in cur.items() if sg == want]
+            rivals = [m_ for m_ in missing if sig(m_, list(structs[m_].values())) == want]
+            if len(cands) == 1 and len(rivals) == 1:
+                out[cands[0]] = n
+    _type_ren[repo] = out
+    return out
+
+
+def apply_type_renames(text, ren):
+    for cur, pinned in ren.items():
+        text = re.sub(r'\b' + re.escape(cur) + r'\b', pinned, text)
+    return text
